@@ -150,7 +150,7 @@ def run_property(pid, tier, seed, module_name=None, post=None):
     cap_s = TIER_CAP[tier] * float(os.environ.get('VERIF_TIME_SCALE', '1'))
     known = load_known()
     total = explore.Agg(); job_reports = []; failed_families = set(); inconclusive = []
-    all_viol = []; canary_ok = {}; precomputed = {}
+    all_viol = []; canary_ok = {}; precomputed = {}; fam_done = {}
     funcs = set()
     for job in jobs:
         elapsed = time.time() - t0
@@ -159,7 +159,7 @@ def run_property(pid, tier, seed, module_name=None, post=None):
         remaining = cap_s - elapsed
         if remaining < 5:
             job_reports.append({'job': job.name, 'bound': job.bound, 'status': 'skipped (tier time cap reached)'})
-            if job.mandatory: inconclusive.append(f'mandatory job {job.name} not run: time cap')
+            if job.mandatory and not fam_done.get(job.family): inconclusive.append(f'mandatory job {job.name} not run: time cap (no bound of family {job.family} completed)')
             continue
         budget = min(job.budget_s, remaining)
         job.params.setdefault('xsmt_every', 211 if tier == 'quick' else 53)
@@ -195,8 +195,10 @@ def run_property(pid, tier, seed, module_name=None, post=None):
         if agg.incomplete:
             failed_families.add(job.family)
             hard = [e for e in agg.errors if not e.startswith('time budget')]
-            if job.mandatory or hard:
+            if hard or (job.mandatory and not fam_done.get(job.family)):
                 inconclusive.append(f'{job.name}: ' + (agg.errors[0][:600] if agg.errors else 'incomplete'))
+        else:
+            fam_done[job.family] = fam_done.get(job.family, 0) + 1
         if job.expect_violation:
             ok = False
             for v in agg.violations[:5]:
